@@ -359,6 +359,9 @@ func (r *Run) afterAuthorize(st Step, cs *ClientSpec, res *Resp, q url.Values, c
 
 func (r *Run) opRedeem(st Step) {
 	code := r.L.Select(st.G, "code")
+	if st.V == "latest" {
+		code = r.L.SelectFromEnd(st.G, "code")
+	}
 	if code == nil {
 		r.logf("redeem: no code yet")
 		return
@@ -521,6 +524,9 @@ func (r *Run) judgeRedeem(st Step, code *Cred, cs *ClientSpec, res *Resp, sentRe
 	}
 	r.logf("%s -> %d %s", desc, res.Status, outcome)
 	r.stat("redeem:" + outcome)
+	if !mutated {
+		r.reconverged(g, "C01", code.Name(), res, "GetAuthorizeCodeSession")
+	}
 
 	if mutated {
 		r.probe("mutated:" + st.p("mutate"))
@@ -528,6 +534,9 @@ func (r *Run) judgeRedeem(st Step, code *Cred, cs *ClientSpec, res *Resp, sentRe
 			r.violate("C06", "tampered-accepted", "code", "a mutated authorization code (%s) was exchanged for tokens", st.p("mutate"))
 		}
 		// a forged code that carries the stored signature of a used code may trigger replay handling: not pinned down by any statement
+		if faulted {
+			g.Unspec = true
+		}
 		r.resync(g, "a mutated code was presented")
 		return
 	}
@@ -555,6 +564,26 @@ func (r *Run) judgeRedeem(st Step, code *Cred, cs *ClientSpec, res *Resp, sentRe
 			r.violate("C01", "code-redeemed-twice", "", "%s: the code had already been redeemed and yielded tokens again", desc)
 			if r.Fault.fired || g.Faulted {
 				r.violate("C18", "invalidated-credential-honoured-again", "code", "%s: the code had been redeemed before a storage failure and yielded tokens again", desc)
+			}
+		}
+		if tokens && !g.Vague && code.State == Live {
+			// what earlier faults left of the server-side state is unknowable; to whom and to which redirect_uri the code is
+			// bound, and for how long, is not
+			var why []string
+			if exp == MustNot {
+				why = append(why, "C07", "C02")
+			}
+			if cs.ID != g.Client {
+				why = append(why, "C02")
+			}
+			if g.Redirect != "" && sentRedirect != g.Redirect {
+				why = append(why, "C02")
+			}
+			for _, p := range appendUniq(nil, why...) {
+				r.violate(p, "redeem-must-refuse", "after-faults", "%s: tokens issued although the attempt had to be refused whatever earlier faults did to the grant (code age %s of %s, owner %s, authorised redirect %q)", desc, now.Sub(code.Issued), code.Life, g.Client, g.Redirect)
+			}
+			if len(why) > 0 {
+				r.probe("binding-judged-after-faults")
 			}
 		}
 		if tokens {
@@ -802,10 +831,16 @@ func (r *Run) judgeRefresh(st Step, rt *Cred, cs *ClientSpec, res *Resp, mutated
 	}
 	r.logf("%s -> %d %s", desc, res.Status, outcome)
 	r.stat("refresh:" + outcome)
+	if !mutated {
+		r.reconverged(g, "C04", rt.Name(), res, "GetRefreshTokenSession")
+	}
 	if mutated {
 		r.probe("mutated:" + st.p("mutate"))
 		if tokens {
 			r.violate("C06", "tampered-accepted", "rt", "a mutated refresh token (%s) was exchanged", st.p("mutate"))
+		}
+		if faulted {
+			g.Unspec = true // a forged token with a stored signature can reach state-changing branches; with a fault inside them the grant's state is unknowable
 		}
 		r.resync(g, "a mutated refresh token was presented")
 		return
@@ -833,6 +868,21 @@ func (r *Run) judgeRefresh(st Step, rt *Cred, cs *ClientSpec, res *Resp, mutated
 			r.violate("C04", "dead-refresh-token-honoured", "", "%s: the token was %s (%v) and yielded tokens again", desc, rt.State, rt.Why)
 			if r.Fault.fired || g.Faulted {
 				r.violate("C18", "invalidated-credential-honoured-again", "rt", "%s: the refresh token had been invalidated before a storage failure and yielded tokens again", desc)
+			}
+		}
+		if tokens && !g.Vague && rt.State == Live {
+			var why []string
+			if exp == MustNot {
+				why = append(why, "C07")
+			}
+			if cs.ID != g.Client {
+				why = append(why, "C05")
+			}
+			for _, p := range appendUniq(nil, why...) {
+				r.violate(p, "refresh-must-refuse", "after-faults", "%s: honoured although it had to be refused whatever earlier faults did to the grant (age %s of %s, owner %s)", desc, now.Sub(rt.Issued), rt.Life, g.Client)
+			}
+			if len(why) > 0 {
+				r.probe("binding-judged-after-faults")
 			}
 		}
 		if tokens {
@@ -930,6 +980,40 @@ func (r *Run) judgeRefresh(st Step, rt *Cred, cs *ClientSpec, res *Resp, mutated
 			r.sanity("%s refused with %s (%v; %s) although every known reason for refusal is absent", desc, res.ErrName, res.Err, truncate(res.Body, 300))
 		}
 		g.Unspec = true
+	}
+}
+
+// reconverged: the server itself recognised the presented credential as already used (its record is stored as inactive /
+// invalidated) and this request ran WITHOUT any fault. Whatever earlier storage failures, crashes or half-applied requests did
+// to the grant, from this moment every token the token endpoint issued for it must be inactive. This is the one rule that is
+// judged on grants whose state the ledger otherwise no longer knows (Unspec): faults stop, the system has to converge.
+func (r *Run) reconverged(g *Grant, prop, what string, res *Resp, readCall string) {
+	if g == nil || res == nil || res.Crashed || r.anyFault() || res.HasTokens() || res.ErrName != "invalid_grant" {
+		return
+	}
+	seen := false
+	for _, c := range res.Trace {
+		if c == readCall+":INACTIVE" {
+			seen = true
+		}
+	}
+	if !seen {
+		return
+	}
+	r.probe("reconverge:" + prop)
+	if g.Unspec || g.Faulted {
+		r.probe("reconverge-after-fault:" + prop)
+	}
+	for _, c := range g.Creds {
+		if (c.Kind != "at" && c.Kind != "rt") || c.Endpoint != "token" {
+			continue
+		}
+		if c.Kind == "rt" && r.W.K.DisableRTValidation {
+			continue
+		}
+		if active, _ := r.introspectCred(c); active {
+			r.violate(prop, "survives-detected-reuse", c.Kind, "%s is still active after %s was recognised as already used and refused (fault-free request; earlier faults on this grant: %v)", c.Name(), what, g.Unspec || g.Faulted)
+		}
 	}
 }
 
@@ -1359,6 +1443,18 @@ func (r *Run) opRevoke(st Step) {
 		r.probeAll("after revoking an unknown token")
 	case c.Unspec || g.Unspec || exp == Unspec:
 		g.Unspec = true
+		if res.Err == nil && cs.ID == g.Client && !g.Vague && c.Endpoint == "token" {
+			// accepted from the owning client in a fault-free request: whatever earlier faults left behind, the presented token is
+			// inactive from now on (revoked now, or it was already invalid)
+			r.probe("revoke-owner-after-faults")
+			// Only the presented token is judged: if it was ALREADY invalid (which the ledger cannot know here) the request is
+			// answered with success "without changing anything", and a sibling that an earlier fault left alive may live on.
+			if !(c.Kind == "rt" && r.W.K.DisableRTValidation) {
+				if active, _ := r.introspectCred(c); active {
+					r.violate("C08", "honoured-but-must-not", c.Kind+":after-faults", "%s is reported active although the owner's revocation of it was accepted (fault-free request on a grant that met faults earlier)", c.Name())
+				}
+			}
+		}
 	case c.State != Live || exp == MustNot:
 		r.probe("revoke-already-invalid:" + c.State.String())
 		// already rotated / revoked / expired. A foreign caller may be told unauthorized_client or success; the owner gets success.
